@@ -145,10 +145,32 @@ def record_case(draw):
     return {'k': 'rec', 'table': tname, 'kind': kind, 'values': vals}
 
 
+@st.composite
+def file_case(draw):
+    """several records written one after the other through ONE file object (write_values), then read back in
+    order through another (read_values): the path real files take, and the place where anything a file object
+    remembers between records would show"""
+    first = draw(record_case())
+    tabs = tables()
+    recs = [{'kind': first['kind'], 'values': first['values']}]
+    for _ in range(draw(st.integers(1, 5))):
+        if draw(st.integers(0, 2)) == 0:
+            r = dict(recs[draw(st.integers(0, len(recs) - 1))])          # the same record again
+        else:
+            for _try in range(20):
+                c = draw(record_case())
+                if c['table'] == first['table']: break
+            if c['table'] != first['table']: c = first
+            r = {'kind': c['kind'], 'values': c['values']}
+        recs.append(r)
+    return {'k': 'file', 'table': first['table'], 'recs': recs}
+
+
 def searches(tier):
     q = tier == 'quick'
     return [Search('lattice', 'enum', lattice(tier), shards=16),
-            Search('whole_records', 'hyp', record_case, n=6000 if q else 200000, shards=4 if q else 16)]
+            Search('whole_records', 'hyp', record_case, n=6000 if q else 200000, shards=4 if q else 16),
+            Search('record_sequences_through_a_file', 'hyp', file_case, n=1500 if q else 40000, shards=4 if q else 16)]
 
 
 def expected_real_forms(v, w, d, typ):
@@ -187,7 +209,71 @@ def judge_field(R, p, tname, kind, i, f, v, parsed, is_target):
                 '%s: wrote %r parsed %r (acceptable: %r)' % (where, v, parsed, forms[:3]))
 
 
+def new_parser(table, path, mode):
+    import fixed_format_file as fff, t2data, t2incons, mulgrids
+    if table == 't2data': return t2data.t2data_parser(path, mode)
+    if table == 't2data_xp': return t2data.t2_extra_precision_data_parser(path, mode)
+    if table == 't2incon': return t2incons.t2incon_parser(path, mode)
+    return fff.fixed_format_file(path, mode, mulgrids.mulgrid_format_specification, mulgrids.mulgrid().read_function)
+
+
+def fits_all(fmts, vals):
+    return all(v is None or spec_of(f)[2] == 'x' or len(('%%%s' % f) % v) <= spec_of(f)[0] for f, v in zip(fmts, vals))
+
+
+def run_file(case, R):
+    tname = case['table']
+    path = os.path.join(R.tmp, 'records.dat')
+    tab = tables()[tname]
+    w = new_parser(tname, path, 'w')
+    written = []
+    R.label('file:records:%d' % len(case['recs']))
+    nontriv = False
+    try:
+        for rec in case['recs']:
+            names, fmts = tab[rec['kind']]
+            vals = list(rec['values'])
+            if not fits_all(fmts, vals): nontriv = True
+            try:
+                w.write_values(vals, rec['kind'])
+            except (ValueError, OverflowError) as e:
+                R.label('write-raised')
+                R.check(not fits_all(fmts, vals), 'write:raised-on-fitting-values', '%s/%s %r raised %r (record %d of a file)' % (
+                    tname, rec['kind'], vals, e, len(written) + 1))
+                break
+            written.append((rec['kind'], fmts, vals))
+    finally:
+        w.close()
+    R.nontrivial(nontriv and len(written) > 1)
+    lines = open(path).read().split('\n')
+    if not R.check(len(lines) == len(written) + 1 and lines[-1] == '', 'file:line-count',
+                   '%d records written, file has %d lines' % (len(written), len(lines) - 1)): return
+    r = new_parser(tname, path, 'r')
+    try:
+        for n, ((kind, fmts, vals), line) in enumerate(zip(written, lines)):
+            total = sum(spec_of(f)[0] for f in fmts)
+            parsed = r.read_values(kind)
+            from vlib.core import Res
+            sub = Res()
+            sub.check(len(line) <= total, 'record:too-long', '%s/%s: record %d of the file is %d columns, format has %d: %r' % (
+                tname, kind, n + 1, len(line), total, line))
+            if len(parsed) != len(fmts):
+                R.fail('parse:wrong-field-count', '%s/%s' % (tname, kind)); return
+            for j, f in enumerate(fmts):
+                judge_field(sub, r, tname, kind, j, f, vals[j], parsed[j], True)
+            if sub.findings:
+                wide = [spec_of(f)[2] for f, v in zip(fmts, vals)
+                        if v is not None and spec_of(f)[2] != 'x' and len(('%%%s' % f) % v) > spec_of(f)[0]]
+                sig, d = sub.findings[0]
+                R.fail(('file:spill:' + wide[0]) if wide else 'file:' + sig,
+                       'record %d of %d written through one file object: %s; line %r' % (n + 1, len(written), d, line))
+                return
+    finally:
+        r.close()
+
+
 def run_case(case, R):
+    if case['k'] == 'file': return run_file(case, R)
     tname, kind = case['table'], case['kind']
     p = parser(tname)
     names, fmts = tables()[tname][kind]
